@@ -193,7 +193,8 @@ def rand_opts(rng, profile, level):
     if rng.random() < p.get("p_th", 0.25):
         # 0 stands for the available parallelism P: lists that also name P (or 0 twice) must collapse after resolution
         P = PARALLELISM
-        o["th"] = rng.choice([[1], [2], [1, 2], [0], [3, 1], [2, 2, 1], [4], [], [1, 3, 2], [0, P], [P, 0], [0, 2, P], [0, 0], [P, P, 1]])
+        o["th"] = rng.choice([[1], [2], [1, 2], [0], [3, 1], [2, 2, 1], [4], [], [1, 3, 2], [0, P], [P, 0], [0, 2, P], [0, 0], [P, P, 1],
+                              [2, 0], [1, 0], [3, 0, 1], [1, 0, 2, 0]])      # a literal array is kept as written: 0 may stand anywhere
         if rng.random() < 0.12:
             o["th"] = []      # a set option: one thread, and it masks the thread counts of the levels above
         # how the attribute would have spelled it: a literal array (kept as is), or a scalar / bool / iterator that goes
